@@ -36,7 +36,15 @@ def protocol(P, R):
     mgr = params[0] if params else 'bdd'
     state = 0
     problems = []
+    # a try/finally is read as its body followed by its final block
+    flat = []
     for s in w.node.body:
+        if isinstance(s, ast.Try) and s.finalbody and not s.handlers:
+            flat.extend(s.body)
+            flat.extend(s.finalbody)
+        else:
+            flat.append(s)
+    for s in flat:
         calls = [au.call_name(c) for c in au.calls_in(s)]
         in_ctx = isinstance(s, ast.With) and any(
             au.call_name(it.context_expr) == '_ReorderingContext'
@@ -84,7 +92,7 @@ def protocol(P, R):
                 problems.append(
                     'the wrapper returns without re-arming `_last_len` '
                     'after the retry: dynamic reordering stays disabled')
-    attempts = [c for st in w.node.body for c in au.calls_in(st, 'func')]
+    attempts = [c for st in flat for c in au.calls_in(st, 'func')]
     if len(attempts) == 2:
         sig = [([au.src(a) for a in c.args],
                 [(k.arg, au.src(k.value)) for k in c.keywords])
@@ -332,11 +340,140 @@ def raw_entries(P, R):
     return n_raw
 
 
+INTERNAL_CALLS = {'reorder', 'len', 'info', 'debug', 'warning',
+                  'getLogger', 'max', 'min'}
+
+
+def is_disable(s):
+    """`X._last_len = None` or `X.configure(reordering=False)`."""
+    if isinstance(s, ast.Assign) and len(s.targets) == 1:
+        ch = au.chain(s.targets[0])
+        if ch and ch[-1] == '_last_len' and isinstance(
+                s.value, ast.Constant) and s.value.value is None:
+            return True
+    for c in au.calls_in(s, 'configure'):
+        for k in c.keywords:
+            if k.arg == 'reordering' and isinstance(
+                    k.value, ast.Constant) and k.value.value is False:
+                return True
+    return False
+
+
+def is_restore(s):
+    if isinstance(s, ast.Assign) and len(s.targets) == 1:
+        ch = au.chain(s.targets[0])
+        if ch and ch[-1] == '_last_len' and not (isinstance(
+                s.value, ast.Constant) and s.value.value is None):
+            return True
+    for c in au.calls_in(s, 'configure'):
+        for k in c.keywords:
+            if k.arg == 'reordering' and not (isinstance(
+                    k.value, ast.Constant) and k.value.value is False):
+                return True
+    return False
+
+
+def restore_flags(P, R):
+    """A function that switches dynamic reordering off for the duration of
+    some work and switches it on again afterwards must do the latter on
+    every exit: the work in between contains user-level operations that
+    may be rejected (an undeclared variable in the retried call, an
+    unreadable file), and a rejected call must leave reordering as it
+    was."""
+    from .. import scope
+    mods = {'dd.bdd', 'dd._copy', 'dd.autoref', 'dd.mdd'}
+    n = 0
+    for f in sorted(P.all_funcs(mods), key=lambda f: f.qualname):
+        fn = f.node
+        au.set_parents(fn)
+        stmts = [s for s in au.walk_no_defs(fn)
+                 if isinstance(s, ast.stmt) and s is not fn]
+        dis = [s for s in stmts if not isinstance(
+            s, (ast.If, ast.For, ast.While, ast.Try, ast.With))
+            and is_disable(s)]
+        res = [s for s in stmts if not isinstance(
+            s, (ast.If, ast.For, ast.While, ast.Try, ast.With))
+            and is_restore(s)]
+        if not dis or not res:
+            continue
+        d = min(dis, key=lambda s: s.lineno)
+        later = [s for s in res if s.lineno > d.lineno]
+        if not later:
+            continue
+        n += 1
+
+        def in_finally(s):
+            p, child = getattr(s, '_parent', None), s
+            while p is not None and p is not fn:
+                if isinstance(p, ast.Try) and any(
+                        child is x or any(child is y for y in ast.walk(x))
+                        for x in p.finalbody):
+                    return p
+                child, p = p, getattr(p, '_parent', None)
+            return None
+        tries = [t for t in (in_finally(s) for s in later) if t is not None]
+        # the restored value is the saved one, not the record it came in
+        for s in later:
+            for c in au.calls_in(s, 'configure'):
+                for k in c.keywords:
+                    if k.arg != 'reordering' or not isinstance(
+                            k.value, ast.Name):
+                        continue
+                    src = au.assignments_to(fn, k.value.id)
+                    if len(src) == 1 and isinstance(
+                            src[0].value, ast.Call) and au.call_name(
+                                src[0].value) == 'configure':
+                        R.violation(
+                            'R-REORD', 'restore-value', f.qualname,
+                            k.value.id,
+                            f'`{au.short(c, 50)}` passes back the whole '
+                            'dictionary that configure() returned, which '
+                            'is truthy whatever it says: reordering is '
+                            'switched ON after the work also when it was '
+                            'off before', unit=f.unit.rel, line=c.lineno)
+        if not tries:
+            R.violation(
+                'R-REORD', 'restore-on-error', f.qualname, 'restore',
+                f'`{au.short(d, 50)}` (line {d.lineno}) switches dynamic '
+                f'reordering off and `{au.short(later[-1], 50)}` (line '
+                f'{later[-1].lineno}) switches it on again, but not in a '
+                '`finally`: when the work in between is rejected (an '
+                'error in the retried operation, an unreadable file) '
+                'the manager is left with dynamic reordering disabled',
+                unit=f.unit.rel, line=later[-1].lineno)
+            continue
+        t = tries[0]
+        # everything that may be rejected lies inside the try
+        outside = []
+        for s in stmts:
+            if not (d.lineno < s.lineno < t.lineno):
+                continue
+            if isinstance(s, (ast.If, ast.For, ast.While, ast.With,
+                              ast.Try)):
+                continue
+            names = {au.call_name(c) for c in au.calls_in(s)} - {None}
+            if names - INTERNAL_CALLS:
+                outside.append(s)
+        if outside:
+            R.violation(
+                'R-REORD', 'restore-on-error', f.qualname, 'unprotected',
+                f'`{au.short(outside[0], 50)}` runs after reordering was '
+                'switched off and before the `try` whose `finally` '
+                'switches it on again', unit=f.unit.rel,
+                line=outside[0].lineno)
+        else:
+            R.holds('R-REORD', f.qualname,
+                    'dynamic reordering is switched off for the work and '
+                    'on again in a `finally`')
+    R.floor('R-REORD functions that switch reordering off and on', n, 2)
+
+
 def r_reord(P, R):
     au.set_parents(P.func('dd.bdd._ReorderingContext.__exit__').node)
     protocol(P, R)
     decorated_set(P, R)
     raw_entries(P, R)
+    restore_flags(P, R)
 r_reord.NAME = 'R-REORD'
 
 
@@ -344,6 +481,7 @@ def r_context(P, R):
     """Only the protocol / context-manager part (used by C17)."""
     au.set_parents(P.func('dd.bdd._ReorderingContext.__exit__').node)
     protocol(P, R)
+    restore_flags(P, R)
 r_context.NAME = 'R-REORD(context restores its flag)'
 
 
